@@ -81,6 +81,30 @@ Qed.
 (* the lines of the quoted fields                                      *)
 (* ------------------------------------------------------------------ *)
 
+(* decimal digits (no section variable: used by Proofs/PoBundleProofs.v as they stand) *)
+Lemma dec_digits_range fuel : forall n acc, Forall (fun c => 48 <= c <= 57) acc -> Forall (fun c => 48 <= c <= 57) (dec_digits fuel n acc).
+Proof.
+  induction fuel as [|f IH]; intros n acc H; cbn [dec_digits]; [exact H|].
+  assert (H' : Forall (fun c => 48 <= c <= 57) ((48 + n mod 10) :: acc)).
+  { constructor; [|exact H]. pose proof (N.mod_upper_bound n 10 ltac:(lia)). lia. }
+  destruct (n / 10 =? 0); [exact H'|apply IH; exact H'].
+Qed.
+Lemma dec_of_N_range n : Forall (fun c => 48 <= c <= 57) (dec_of_N n).
+Proof. apply dec_digits_range. constructor. Qed.
+Lemma dec_of_N_last n : exists m c, dec_of_N n = m ++ [c] /\ 48 <= c <= 57.
+Proof.
+  pose proof (dec_of_N_range n) as H.
+  assert (Hne : dec_of_N n <> []).
+  { unfold dec_of_N. cbn [dec_digits]. destruct (n / 10 =? 0); [discriminate|].
+    generalize (N.to_nat (N.log2 n)) (n / 10). intros f k.
+    assert (G : forall f k acc, acc <> [] -> dec_digits f k acc <> []).
+    { clear. induction f as [|f IH]; intros k acc Ha; cbn [dec_digits]; [exact Ha|].
+      destruct (k / 10 =? 0); [discriminate|apply IH; discriminate]. }
+    apply G. discriminate. }
+  destruct (exists_last Hne) as (m & c & E). exists m, c. split; [exact E|].
+  rewrite E in H. apply Forall_app in H. destruct H as [_ H]. inversion H; assumption.
+Qed.
+
 Section Po.
 Variable is_print : N -> bool.
 
@@ -151,29 +175,6 @@ Qed.
 
 Lemma po_opt_ok P v : nl_free P -> Forall line_ok (po_opt is_print P v).
 Proof. intro HP. unfold po_opt. destruct v; [constructor|apply po_quo_ok; exact HP]. Qed.
-
-Lemma dec_digits_range fuel : forall n acc, Forall (fun c => 48 <= c <= 57) acc -> Forall (fun c => 48 <= c <= 57) (dec_digits fuel n acc).
-Proof.
-  induction fuel as [|f IH]; intros n acc H; cbn [dec_digits]; [exact H|].
-  assert (H' : Forall (fun c => 48 <= c <= 57) ((48 + n mod 10) :: acc)).
-  { constructor; [|exact H]. pose proof (N.mod_upper_bound n 10 ltac:(lia)). lia. }
-  destruct (n / 10 =? 0); [exact H'|apply IH; exact H'].
-Qed.
-Lemma dec_of_N_range n : Forall (fun c => 48 <= c <= 57) (dec_of_N n).
-Proof. apply dec_digits_range. constructor. Qed.
-Lemma dec_of_N_last n : exists m c, dec_of_N n = m ++ [c] /\ 48 <= c <= 57.
-Proof.
-  pose proof (dec_of_N_range n) as H.
-  assert (Hne : dec_of_N n <> []).
-  { unfold dec_of_N. cbn [dec_digits]. destruct (n / 10 =? 0); [discriminate|].
-    generalize (N.to_nat (N.log2 n)) (n / 10). intros f k.
-    assert (G : forall f k acc, acc <> [] -> dec_digits f k acc <> []).
-    { clear. induction f as [|f IH]; intros k acc Ha; cbn [dec_digits]; [exact Ha|].
-      destruct (k / 10 =? 0); [discriminate|apply IH; discriminate]. }
-    apply G. discriminate. }
-  destruct (exists_last Hne) as (m & c & E). exists m, c. split; [exact E|].
-  rewrite E in H. apply Forall_app in H. destruct H as [_ H]. inversion H; assumption.
-Qed.
 
 Lemma nl_free_weaken (P : N -> Prop) l : (forall c, P c -> c <> 10) -> Forall P l -> nl_free l.
 Proof. intros HP H. eapply Forall_impl; [|exact H]. exact HP. Qed.
